@@ -253,12 +253,13 @@ impl LocationResolver for ConcreteGlobalLoc {
         // area as opposed to an existing signature.
         // Maybe signatures should only be for globals.
         // And maybe even just naive globals.
-        assert!(
-            tys.try_sig(lambda_loc.wrap()).is_some(),
-            "{} exists but {} doesn't for some reason",
-            self.debug(interner),
-            lambda_loc.debug(interner),
-        );
+        //
+        // if the header of the lambda couldn't be inferred (which has been reported as an
+        // error), there is no lambda to resolve to.
+        if tys.try_sig(lambda_loc.wrap()).is_none() {
+            let _ = interner;
+            return None;
+        }
 
         Some(lambda_loc)
     }
